@@ -3,8 +3,8 @@
 Abstract events: open (begin / savepoint s), commit (commit / release s), rollback (rollback / rollback to s),
 modifying statement executed (sqlite3_step on an insert/update/delete statement, sqlite3_exec of non-tx SQL).
 Typestate ts = (mods, committed, lost, mods_out):
-   mods      tuple of bool, one per open transaction level opened or inherited by this function
-             (True = a modifying statement ran at that level)
+   mods      tuple of int, one per open transaction level opened or inherited by this function
+             (bit 0 = a modifying statement ran at that level, bit 1 = the level was opened by `savepoint s`)
    committed a transaction opened by this function at its outermost level was committed successfully
    lost      a rollback-kind close discarded modifications
    mods_out  0/1/2 = number (saturating) of modifying statements run outside any transaction of this function
@@ -34,6 +34,35 @@ TX_REQUIRED_HELPERS = {
 }
 
 
+# functions whose unconditional ROLLBACK is their documented purpose
+FULL_ROLLBACK_BY_DESIGN = {
+    "cif_destroy": "cif.h: destroying a CIF releases everything belonging to it, open iterators included; its first action is to "
+                   "end whatever transaction is open",
+}
+
+
+def may_savepoint(prog):
+    """functions that can execute `savepoint s` themselves or through callees"""
+    cache = getattr(prog, "_may_savepoint", None)
+    if cache is not None:
+        return cache
+    direct = set()
+    for fn in prog.all_functions():
+        for (b, i, r, n) in fn.calls_to("sqlite3_exec"):
+            if tx_literal(n) == "savepoint s":
+                direct.add(fn.name)
+    out = set(direct)
+    changed = True
+    while changed:
+        changed = False
+        for fn in prog.all_functions():
+            if fn.name not in out and prog.callees(fn) & out:
+                out.add(fn.name)
+                changed = True
+    prog._may_savepoint = out
+    return out
+
+
 def ret_class(av):
     if av is None:
         return "unknown"
@@ -56,9 +85,12 @@ class TxInterp(Interp):
         self.mod_sites = []       # (line, what, depth)
         self.public = prog.public_api()
         self._seen_ev = set()
+        self.may_savepoint = may_savepoint(prog)
+        # a connection opened by this very function cannot carry anybody else's transaction
+        self.own_connection = any(n.get("callee") in ("sqlite3_open", "sqlite3_open_v2", "sqlite3_open16") for (b, i, r, n) in fn.calls())
 
     def initial_ts(self):
-        return (tuple([False] * self.entry_depth), False, False, 0, None)
+        return (tuple([0] * self.entry_depth), False, False, 0, None)
 
     def _note(self, kind, node, depth):
         k = (kind, node.get("l"), node["id"])
@@ -70,7 +102,7 @@ class TxInterp(Interp):
         mods, committed, lost, mo, outer = st.ts
         self.mod_sites.append((n.get("l"), what, len(mods)))
         if mods:
-            mods = mods[:-1] + (True,)
+            mods = mods[:-1] + (mods[-1] | 1,)
         else:
             mo = min(2, mo + count)
         return st.with_ts((mods, committed, lost, mo, outer))
@@ -86,7 +118,7 @@ class TxInterp(Interp):
                 # SQLite refuses BEGIN while a transaction is open: only the failing outcome exists
                 self.anomalies.append(("begin-inside-transaction", n.get("l"), st))
                 return [(st, NONZERO)]
-            ok = st.with_ts((mods + (False,), committed, lost, mo, outer))
+            ok = st.with_ts((mods + (2 if lit == "savepoint s" else 0,), committed, lost, mo, outer))
             return [(ok, av_const(0)), (st, NONZERO)]
         if ev == "commit":
             self._note("commit", n, len(mods))
@@ -99,22 +131,27 @@ class TxInterp(Interp):
                     self.anomalies.append(("full-commit-inside-enclosing-transaction", n.get("l"), st))
                 ok = st.with_ts(((), True, lost, mo, outer))
                 return [(ok, av_const(0)), (st, NONZERO)]
-            top = mods[-1]
+            top = mods[-1] & 1
             rest = mods[:-1]
             if rest and top:
-                rest = rest[:-1] + (True,)
+                rest = rest[:-1] + (rest[-1] | 1,)
             ok = st.with_ts((rest, committed or (len(rest) <= self.entry_depth), lost, mo, outer))
             return [(ok, av_const(0)), (st, NONZERO)]
         if ev == "rollback":
             self._note("rollback", n, len(mods))
             if not mods:
+                if lit == "rollback" and self.entry_depth == 0 and outer is not False and not self.own_connection \
+                        and self.fn.name not in FULL_ROLLBACK_BY_DESIGN:
+                    # nothing of this function's is open here (its BEGIN failed or was never reached): a full ROLLBACK
+                    # can only hit a transaction that somebody else - an open packet iterator - holds
+                    self.anomalies.append(("full-rollback-without-own-transaction", n.get("l"), st))
                 return [(st, None)]     # idempotent close
             if lit == "rollback":
                 # ROLLBACK (without TO) ends the whole transaction: every open level, inherited ones included
                 if outer:
                     self.anomalies.append(("full-rollback-inside-enclosing-transaction", n.get("l"), st))
-                return [(st.with_ts(((), committed, lost or any(mods), mo, outer)), None)]
-            s = st.with_ts((mods[:-1], committed, lost or mods[-1], mo, outer))
+                return [(st.with_ts(((), committed, lost or any(m_ & 1 for m_ in mods), mo, outer)), None)]
+            s = st.with_ts((mods[:-1], committed, lost or bool(mods[-1] & 1), mo, outer))
             return [(s, None)]
         if callee == "sqlite3_get_autocommit":
             if mods:
@@ -141,13 +178,17 @@ class TxInterp(Interp):
         if callee in UNBALANCED:
             entry, exits = UNBALANCED[callee]
             if callee == "cif_loop_get_packets":
-                ok = st.with_ts((mods + (False,), committed, lost, mo, outer))
+                ok = st.with_ts((mods + (0,), committed, lost, mo, outer))
                 return [(ok, av_const(0)), (st, NONZERO)]
             # close / abort
             if not mods:
                 self.anomalies.append(("iterator-close-without-open", n.get("l"), st))
                 return [(st, None)]
             return [(st.with_ts(((), committed, lost, mo, outer)), None)]     # COMMIT / ROLLBACK: the whole transaction ends
+        if mods and (mods[-1] & 2) and callee in self.may_savepoint:
+            # our level is `savepoint s`; the callee may set another `savepoint s` and, when it fails, leave it on the stack
+            # (ROLLBACK TO does not remove a savepoint): our own ROLLBACK TO s would then stop at the callee's savepoint
+            self.anomalies.append(("nested-same-name-savepoint:%s" % callee, n.get("l"), st))
         if callee in TX_REQUIRED_HELPERS:
             self.helper_calls.append((callee, n.get("l"), len(mods)))
         sm = self.summaries.get(callee)
